@@ -1,6 +1,6 @@
 (* C09 — the property statements, proved from the invariants of the other proof files. *)
 From OlaBase Require Import Bytes.
-From C09 Require Import Gen Model FrameProofs DispatchProofs OnceProofs ServerProofs.
+From C09 Require Import Gen Model FrameProofs Generic DispatchProofs OnceProofs ServerProofs ServerOnce.
 Local Open Scope N_scope.
 
 Lemma write_ok_write off n al bs :
@@ -8,6 +8,12 @@ Lemma write_ok_write off n al bs :
 Proof.
   cbn. intros H. apply andb_prop in H as [H H3]. apply andb_prop in H as [H1 H2].
   apply N.leb_le in H1, H2, H3. auto.
+Qed.
+
+Lemma remove_absent id l : lookup id l = None -> remove id l = l.
+Proof.
+  induction l as [|[j q] l IH]; cbn; [reflexivity|].
+  destruct (j =? id); [discriminate|]. intros H. rewrite IH by exact H. reflexivity.
 Qed.
 
 Section Final.
@@ -30,9 +36,24 @@ Proof.
   split; [|split; [|split]].
   - intros off n al bs Hi. apply write_ok_write. apply Hok. exact Hi.
   - intros e Hi. specialize (Hok e Hi). destruct e; try reflexivity.
-    apply write_ok_write in Hok. cbn. apply N.ltb_ge. lia.
+    + apply write_ok_write in Hok. cbn. apply N.ltb_ge. lia.
+    + cbn in *. apply N.leb_le in Hok. apply N.ltb_ge. lia.
+    + cbn in *. apply andb_prop in Hok as [H1 _]. apply N.leb_le in H1. apply N.ltb_ge. lia.
   - intros Hi. specialize (Hok _ Hi). discriminate.
   - repeat split; auto. intros Hne. apply Hb in Hne. tauto.
+Qed.
+
+(* reads of the message buffer (HandleNewMsg parses [0, n)) and writes of the 4-byte header array *)
+Lemma reads_safe r0 ops f r tr :
+  run init_frame r0 ops = (f, r, tr) ->
+  (forall n al, In (EvParse n al) tr -> n <= al /\ n <= 1048576) /\
+  (forall off n, In (EvHdrWrite off n) tr -> off + n <= 4).
+Proof.
+  intros H. apply run_safe in H; [|apply FI_init]. destruct H as [_ Hok].
+  split.
+  - intros n al Hi. specialize (Hok _ Hi). cbn in Hok. apply andb_prop in Hok as [H1 H2].
+    apply N.leb_le in H1, H2. auto.
+  - intros off n Hi. specialize (Hok _ Hi). cbn in Hok. apply N.leb_le in Hok. exact Hok.
 Qed.
 
 (* a complete header with a wrong version or an oversize length closes the channel and leaves the
@@ -43,7 +64,8 @@ Lemma reject_closes ok f r avail f' r' rest evs :
   len h = 4 -> hdr_size (hdr_word h) <> 0 ->
   (hdr_version (hdr_word h) <> PROTOCOL_VERSION \/ 1048576 < hdr_size (hdr_word h)) ->
   descriptor_ready ok f r avail = (f', r', rest, evs) ->
-  closed f' = true /\ expected f' = 0 /\ evs = [EvClose] /\ r' = r /\
+  closed f' = true /\ expected f' = 0 /\
+  evs = [EvHdrWrite (len (hdr f)) (N.min (4 - len (hdr f)) (len avail)); EvClose] /\ r' = r /\
   alloc f' = alloc f /\ bufsz f' = bufsz f.
 Proof.
   intros Hd He h Hl Hs Hbad H. unfold Model.descriptor_ready in H. rewrite Hd, He, N.eqb_refl in H.
@@ -142,6 +164,94 @@ Lemma dead_stops f r bs ok :
 Proof.
   intros H. cbn [step]. destruct bs as [|b bs]; [reflexivity|].
   cbn [feed length]. rewrite H, orb_true_r. reflexivity.
+Qed.
+
+(* once the descriptor has been closed (rejected header, undecodable message) nothing more is read *)
+Lemma closed_stops f r bs ok :
+  closed f = true -> step decode method_kind req_ok service f r (OpChunk bs ok) = (f, r, []).
+Proof.
+  intros H. cbn [step]. destruct bs as [|b bs]; [reflexivity|].
+  cbn [feed length]. rewrite H. reflexivity.
+Qed.
+
+(* serving side bookkeeping over all histories *)
+Lemma server_once r0 ops f r tr :
+  requests r0 = [] -> cancelled r0 = [] -> nreq r0 = 0 ->
+  run init_frame r0 ops = (f, r, tr) ->
+  NoDup (map fst (requests r)) /\ NoDup (map snd (requests r)) /\ NoDup (cancelled r) /\
+  (forall q, In q (map snd (requests r)) -> q < nreq r /\ ~ In q (cancelled r) /\ cntN q (freed tr) = 0%nat) /\
+  (forall q, In q (cancelled r) -> q < nreq r /\ cntN q (freed tr) = 0%nat) /\
+  (forall q, q < nreq r -> ~ In q (map snd (requests r)) -> ~ In q (cancelled r) -> cntN q (freed tr) = 1%nat) /\
+  (forall q, nreq r <= q -> cntN q (freed tr) = 0%nat).
+Proof.
+  intros H1 H2 H3 H. apply run_W in H; [exact H|].
+  unfold WR. rewrite H1, H2, H3. apply W_init.
+Qed.
+
+(* an unknown method is answered with NOT_IMPLEMENTED carrying the request's id; the service is not called *)
+Lemma not_implemented cl r m r' evs :
+  m_type m = REQUEST \/ m_type m = STREAM_REQUEST ->
+  method_kind (m_name m) = 0 -> dead r || cl = false ->
+  dispatch method_kind req_ok service cl true r m = (r', evs) ->
+  evs = [EvSend (mkMsg RESPONSE_NOT_IMPLEMENTED (m_id m) [] [])] /\ r' = r.
+Proof.
+  intros Ht Hk Hd H. unfold dispatch in H.
+  destruct Ht as [Ht|Ht].
+  - rewrite Ht in H. cbn in H. unfold handle_request, send_msg in H. rewrite Hk, Hd in H. cbn in H.
+    injection H as <- <-. split; reflexivity.
+  - unfold resp_outcome in H. rewrite Ht in H. cbn in H.
+    unfold handle_stream_request, send_msg in H. rewrite Hk, Hd in H. cbn in H.
+    injection H as <- <-. split; reflexivity.
+Qed.
+
+(* a served request: the service is called exactly once; a service that completes at once gets its
+   reply / failure text written under the request's id and the request object is deleted *)
+Lemma request_served cl r m r' evs fr :
+  WR r fr -> m_type m = REQUEST ->
+  method_kind (m_name m) <> 0 -> method_kind (m_name m) <> 3 -> req_ok (m_buf m) = true ->
+  lookup (m_id m) (requests r) = None -> dead r || cl = false ->
+  dispatch method_kind req_ok service cl true r m = (r', evs) ->
+  match service (m_name m) (m_buf m) with
+  | None =>
+    evs = [EvService (m_name m) (m_buf m)] /\
+    requests r' = (m_id m, nreq r) :: requests r /\ nreq r' = nreq r + 1
+  | Some res =>
+    evs = [EvService (m_name m) (m_buf m);
+           EvSend (match res with
+                   | SReply b => mkMsg RESPONSE (m_id m) [] b
+                   | SFail t => mkMsg RESPONSE_FAILED (m_id m) [] t
+                   end);
+           EvFreeReq (nreq r)] /\
+    requests r' = requests r /\ nreq r' = nreq r + 1
+  end.
+Proof.
+  intros HW Ht K0 K3 Hq Hl Hd H. unfold dispatch in H. rewrite Ht in H. cbn in H.
+  unfold handle_request, supersede in H.
+  apply N.eqb_neq in K0, K3. rewrite K0, K3, Hq, Hl in H. cbn in H.
+  destruct (service (m_name m) (m_buf m)) as [res|].
+  - unfold request_complete in H. cbn in H.
+    assert (Hm : memN (nreq r) (cancelled r) = false).
+    { destruct (memN (nreq r) (cancelled r)) eqn:E; [|reflexivity].
+      apply memN_In in E. destruct HW as (_ & _ & _ & _ & HE & _). apply HE in E. lia. }
+    rewrite Hm, N.eqb_refl in H. unfold send_msg in H. cbn in H. rewrite Hd in H. cbn in H.
+    rewrite N.eqb_refl in H.
+    injection H as <- <-. cbn. rewrite (remove_absent _ _ Hl). auto.
+  - injection H as <- <-. cbn. auto.
+Qed.
+
+(* the service completes an outstanding request later: exactly its reply / failure text goes out under
+   the request's id, and the object is deleted *)
+Lemma complete_reply cl r q res id r' evs :
+  memN q (cancelled r) = false -> key_of q (requests r) = Some id -> dead r || cl = false ->
+  request_complete cl true r q res = (r', evs) ->
+  evs = [EvSend (match res with
+                 | SReply b => mkMsg RESPONSE id [] b
+                 | SFail t => mkMsg RESPONSE_FAILED id [] t
+                 end); EvFreeReq q] /\
+  requests r' = remove id (requests r) /\ cancelled r' = cancelled r.
+Proof.
+  intros Hm Hk Hd H. unfold request_complete, send_msg in H. rewrite Hm, Hk, Hd in H. cbn in H.
+  destruct res; inversion H; subst; cbn; auto.
 Qed.
 
 End Final.
